@@ -490,6 +490,7 @@ Section Erasure.
       destruct (operand_of V oval s src) as [[ds xs]|]; reflexivity.
     - destruct (get V s src) as [[l c]|]; reflexivity.
     - destruct (get V s src) as [[l c]|]; reflexivity.
+    - destruct (get V s src) as [[l c]|]; reflexivity.
   Qed.
 
   Lemma step_er i s : stepU i (er s) = rmap er (stepV i s).
@@ -582,6 +583,54 @@ Proof.
   destruct Hex as (tags & Hin & Hr). apply tuples_in in Hin. destruct Hin as [Hl Hf].
   exists tags. split; [exact Hl|]. split; [exact Hf|].
   intros ins <-. rewrite <- accepts_exact. exact Hr.
+Qed.
+
+Lemma product_in : forall sets tags,
+  In tags (product sets) <-> Forall2 (fun t s => In t s) tags sets.
+Proof.
+  induction sets as [|s r IH]; intros tags; cbn.
+  - split.
+    + intros [<-|[]]. constructor.
+    + intros H. inversion H. left. reflexivity.
+  - rewrite in_flat_map. split.
+    + intros (t & Ht & Hin). apply in_map_iff in Hin. destruct Hin as (q & <- & Hq).
+      constructor; [exact Ht|]. apply IH. exact Hq.
+    + intros H. inversion H as [|t s' q r' Ht Hq]; subst. exists t. split; [exact Ht|].
+      apply in_map. apply IH. exact Hq.
+Qed.
+
+Lemma Forall2_map_fst {V} (ins : list (dt * V)) sets :
+  Forall2 (fun x s => In (fst x) s) ins sets -> Forall2 (fun t s => In t s) (map fst ins) sets.
+Proof. induction 1; cbn; constructor; assumption. Qed.
+
+(* repr_safe for inputs with individual dtype sets *)
+Lemma analyze_typed_sound V fop wrap cast ffun kfun vnan oval p sets :
+  analyze_typed p sets = true ->
+  forall ins : list (dt * V), Forall2 (fun x s => In (fst x) s) ins sets ->
+  exists s', run V fop wrap cast ffun kfun vnan oval p (init V ins) = ROk s' /\ hz s' = 0.
+Proof.
+  intros H ins Hf. apply accepts_sound.
+  unfold analyze_typed in H. rewrite forallb_forall in H. apply H.
+  apply product_in. apply Forall2_map_fst. exact Hf.
+Qed.
+
+(* the dtype the analysis predicts for a variable is the dtype it has in every concrete run *)
+Lemma returns_dtype_sound V fop wrap cast ffun kfun vnan oval p sets v d :
+  returns_dtype p sets v d = true ->
+  forall ins : list (dt * V), Forall2 (fun x s => In (fst x) s) ins sets ->
+  exists s' l c, run V fop wrap cast ffun kfun vnan oval p (init V ins) = ROk s' /\ hz s' = 0 /\
+                 get V s' v = Some (l, c) /\ cdt c = d.
+Proof.
+  intros H ins Hf. unfold returns_dtype in H. rewrite forallb_forall in H.
+  specialize (H (map fst ins)). rewrite product_in in H.
+  specialize (H (Forall2_map_fst ins sets Hf)). apply andb_true_iff in H. destruct H as [Ha Hd].
+  destruct (accepts_sound V fop wrap cast ffun kfun vnan oval p ins Ha) as (s' & Er & Hz).
+  unfold result_dtype, arun in Hd. rewrite map_map in Hd.
+  change (map (fun x : dt * V => (fst x, tt)) ins) with (map (fun x : dt * V => (fst x, tt)) ins) in Hd.
+  rewrite <- (init_er V ins) in Hd.
+  rewrite (run_er V fop wrap cast ffun kfun vnan oval p (init V ins)), Er in Hd. cbn [rmap] in Hd.
+  rewrite get_er in Hd. destruct (get V s' v) as [[l c]|] eqn:G; cbn in Hd; [|discriminate].
+  exists s', l, c. split; [exact Er|]. split; [exact Hz|]. split; [exact G|]. apply dt_eqb_eq. exact Hd.
 Qed.
 
 (* a run that ends safely never executed a failing in-place operation: every prefix is safe *)
@@ -854,6 +903,13 @@ Section ValueIndependence.
     - intros v w l. apply F21.
   Qed.
 
+  Lemma R_bump s1 s2 b1 b2 : R s1 s2 -> R (bump V b1 s1) (bump V b2 s2).
+  Proof.
+    intros (W1 & W2 & [Apc A] & F12 & F21).
+    split; [exact W1|]. split; [exact W2|]. split; [|split; assumption].
+    split; [exact Apc|exact A].
+  Qed.
+
   Lemma R_tick s1 s2 : R s1 s2 -> R (tick V s1) (tick V s2).
   Proof.
     intros (W1 & W2 & [Apc A] & F12 & F21).
@@ -1026,6 +1082,10 @@ Section ValueIndependence.
       + apply (alloc_iso_eq s1 dst _ false); [exact W1|]. reflexivity.
       + apply (alloc_iso_eq s2 dst _ false); [exact W2|]. cbn [cval].
         rewrite (get_agree _ _ _ _ _ _ _ Ag G1 G2). reflexivity.
+    - (* IReduce *)
+      destruct (get V s1 src) as [[l1 c1]|] eqn:G1; [|discriminate].
+      destruct (get V s2 src) as [[l2 c2]|] eqn:G2; [|discriminate].
+      inversion E1; inversion E2; subst. apply R_bump. exact HR.
     - (* IKernel *)
       destruct (get V s1 src) as [[l1 c1]|] eqn:G1; [|discriminate].
       destruct (get V s2 src) as [[l2 c2]|] eqn:G2; [|discriminate].
